@@ -222,6 +222,7 @@ class Resources:
 
         """
         data = self.__dict__.copy()
+        data["extra_args"] = dict(data["extra_args"])
         for key, value in kwargs.items():
             if key == "extra_args":
                 data["extra_args"] = {**data["extra_args"], **value}
